@@ -164,6 +164,18 @@ func VH_shell_Scanner() {
 			vCover("rest")
 			vAssert(string(rest) == string(in[consumed:]), "Rest returns exactly the bytes not yet consumed")
 			vAssert(!sc.Next() && !sc.Next(), "Next is false after Rest")
+			// a scanner that was cut short with Rest can be Reset and used again
+			sc.Reset(strings.NewReader(string(in)))
+			for j := 0; ; j++ {
+				more := sc.Next()
+				vAssert(more == (j < len(want)), "after Rest and Reset: Next reports whether another token exists")
+				if !more {
+					break
+				}
+				vAssert(vSameText(sc.Text(), want[j].text), "after Rest and Reset: Text is the reference token")
+			}
+			vAssert(sc.Complete() == complete || len(want) > 0 && !want[len(want)-1].done && sc.Complete() == complete, "after Rest and Reset: Complete as for a fresh scan")
+			vCover("rest-reset")
 			return
 		}
 		more := sc.Next()
